@@ -5,6 +5,8 @@ import CfbVerif.Phys.NoPanic
 import CfbVerif.Phys.NoPanicApi
 import CfbVerif.Phys.Load
 import CfbVerif.Phys.NoHang
+import CfbVerif.Phys.NoHangOps
+import CfbVerif.Phys.NoHangMini
 /-!
 # C11 — mutating any file the library agreed to open never panics or hangs
 
@@ -43,8 +45,8 @@ Proved here, for *arbitrary* tables (no consistency assumed beyond the stated ra
   (`Phys/NoPanicApi.lean`): `C11_api_history_never_panics` — along every API history from every such
   image no call reaches a panic exit of the allocation level.  This is the composition over
   the whole write path that the primitive lemmas above lacked — for the panic exits.  The `hang`
-  exits (fuel) of the regular-chain level are covered by `Phys/NoHang.lean` (below); those of the
-  mini level and the composition over whole operations are not, nor is the directory level.
+  exits (fuel) are covered by `Phys/NoHang*.lean` (below) for the store machine on well-formed tables,
+  with one case missing; the directory level is not.
 * `C11_free_chain_terminates`, `C11_chain_write_terminates`, `C11_chain_read_terminates`,
   `C11_chain_set_len_terminates` (`Phys/NoHang.lean`): the loops of alloc.rs/chain.rs that have no
   bound in the Rust never use up the model's fuel — `free_chain` on *any* FAT (each round turns a
@@ -52,6 +54,12 @@ Proved here, for *arbitrary* tables (no consistency assumed beyond the stated ra
   loops on any tables (a byte or more per round), chain growth when the chain's last sector has END
   in its cell and is not on the (duplicate-free, in-range) free list — the condition is kept by
   every round, so a chain that was walked can be grown for ever.
+* `C11_regular_ops_never_hang_partial` (`Phys/NoHangOps.lean`): the local conditions discharged from
+  the invariant of the reachable states (`JR`): no operation on the directory chain, no reopen and no
+  operation on a stream that lives in a regular chain hangs, in any reachable state, with any
+  arguments.
+* **`C11_store_ops_never_hang_partial`** (`Phys/NoHangMini.lean`): the mini level as well — every store
+  operation in every reachable state, except the migration of a regular chain into the mini stream.
 * `C11_mini_pop_safe_reachable`, `C11_reuse_safe_reachable`: both range conditions hold in *every*
   state the API model reaches from a fresh file (`miniRange_reachable`, `inv_reachable`: induction
   over all histories), so on well-formed files these two unchecked indexings can never fail.
@@ -307,6 +315,65 @@ example (v4 : Bool) : TailOK (Phys.create v4) [] :=
 `open_chain` was not asked about) the model's `extend_chain` runs out of fuel -/
 example : (match extendChain { (Phys.create false) with fat := #[FATSECT, 1] } 1 .zero with | .hang _ => true | _ => false) = true := by
   decide
+
+
+/-- **whole operations, partial**: in every state that store operations and reopens reach from a fresh file
+(while the file stays inside the format's range of sector numbers), `allocate_dir_entry`'s chain growth,
+`open`'s cache rebuild, and reading, writing, resizing (to nothing, or to another length of at least
+4096 bytes) and removing any stream that lives in a regular chain never reach a `hang` exit — for all
+arguments.  *Partial*: the full statement quantifies over every operation; the operations on streams
+below 4096 bytes and the two migrations are missing (the mini level, see `Phys/NoHang.lean`). -/
+theorem C11_regular_ops_never_hang_partial (v4 : Bool) (ops : List GOp) :
+    let g0 : G := { p := Phys.create v4, L := fun _ => 0 }
+    WritesInRange g0 ops → (grun g0 ops).p.fat.size ≤ MAXREG + 1 →
+    let g := grun g0 ops
+    (∀ slot, NH (gstep g (.ensure slot))) ∧ NH (gstep g .reopen) ∧
+    (∀ s, CUTOFF ≤ g.L s →
+      (∀ off n, NH (readData g.p s (g.L s) off n)) ∧
+      (∀ off bs, NH (gstep g (.write s off bs))) ∧
+      (∀ n, n = 0 ∨ CUTOFF ≤ n → NH (gstep g (.resize s n))) ∧
+      NH (gstep g (.free s))) :=
+  regular_ops_never_hang v4 ops
+
+/-- the premises are met by the empty history (and by every history `regLen_reachable` speaks of) -/
+example : WritesInRange ({ p := Phys.create false, L := fun _ => 0 } : G) [] ∧
+    (grun ({ p := Phys.create false, L := fun _ => 0 } : G) []).p.fat.size ≤ MAXREG + 1 := by
+  refine ⟨trivial, ?_⟩
+  show (Phys.create false).fat.size ≤ MAXREG + 1
+  decide
+
+
+/-- **the store machine never hangs, partial**: in every state that store operations and reopens reach from
+a fresh file, every store operation — `allocate_dir_entry`'s chain growth, creating a stream,
+`write_data_to_stream`, `resize_stream`, `remove_stream`'s release, `open`'s cache rebuild, with any
+arguments — returns a value or an error and not one of the model's `hang` exits, provided the file has
+room inside the format's range of sector numbers for what the operation may add (`opCost`: six FAT
+cells per byte written is a crude bound; a 2 TB file is where it bites).  *Partial*: one case of the
+full statement is missing — `IntoMini`, shrinking a stream of at least 4096 bytes to a non-zero length
+below 4096 (it frees a regular chain and then allocates in the mini stream: "the two container chains
+stay walkable" across `free_chain` is not proved) — and the statement is about the store machine, not
+about the API level built on it (`Phys/NoHangMini.lean`, 1 200 lines: the invariant `MW` — both
+container chains can be walked, are disjoint and keep clear of a duplicate-free free list of FREE
+cells — is kept by every allocation; `free_mini_chain` terminates by the same counting argument as
+`free_chain`). -/
+theorem C11_store_ops_never_hang_partial (v4 : Bool) (ops : List GOp) (op : GOp) :
+    let g0 : G := { p := Phys.create v4, L := fun _ => 0 }
+    WritesInRange g0 ops → MiniBounded g0 ops →
+    let g := grun g0 ops
+    ¬ IntoMini g op → g.p.fat.size + 6 * opCost op ≤ MAXREG + 1 → NH (gstep g op) :=
+  store_ops_never_hang v4 ops op
+
+/-- the premises are met on a fresh file by any write of a buffer that is not astronomically long (and the
+excluded case is a real case) -/
+example (bs : Bytes) (h : bs.length ≤ 1000000) : ¬ IntoMini ({ p := Phys.create false, L := fun _ => 0 } : G) (.write 1 0 bs) ∧
+    (Phys.create false).fat.size + 6 * opCost (.write 1 0 bs) ≤ MAXREG + 1 := by
+  refine ⟨fun h => h, ?_⟩
+  show (Phys.create false).fat.size + 6 * (bs.length + 2) ≤ MAXREG + 1
+  have h1 : (Phys.create false).fat.size = 2 := rfl
+  have h2 : MAXREG = 4294967290 := by decide
+  omega
+example : IntoMini ({ p := Phys.create false, L := fun _ => 5000 } : G) (.resize 1 100) := by
+  refine ⟨?_, by decide, ?_⟩ <;> decide
 
 /-- the premise is met by a damaged state — the MiniFAT chain cut under the in-memory MiniFAT (F20) —
 and the operation that used to trip the assertion is answered with an error -/
